@@ -103,6 +103,9 @@ func (s *State) ExpandMacros(program ast.Node) ast.Node {
 		}
 
 		evalEnv := extendMacroEnv(macro, args)
+		// the macro body runs under the limits of the state expanding it (deadline, depth).
+		evalEnv.Context = s.Context
+		evalEnv.MaxDepth = s.MaxDepth
 
 		evaluated := evalEnv.Eval(macro.Body)
 
